@@ -732,7 +732,8 @@ def make_lfn_entry(dir_name: str,
                              "no need to create an LFN entry.",
                              errno=errno.EINVAL)
 
-    if len(dir_name) > 255:
+    # dir_name is UTF-16 encoded at this point: two bytes per code unit
+    if len(dir_name) > 255 * 2:
         raise PyFATException("Long file name exceeds 255 "
                              "characters, not supported.",
                              errno=errno.ENAMETOOLONG)
